@@ -1464,3 +1464,7 @@ Lemma failing_spawn_example :
   fd_of (OHandle 0 HIo) (i_led (snd st)) = Some 11 /\ count_if is_temp (i_led (snd st)) = 0 /\
   In (EClose 12 (OTemp 2)) (i_tr (snd st)) /\ In (EClose 13 (OTemp 3)) (i_tr (snd st)).
 Proof. vm_compute. repeat split; auto 10. Qed.
+
+(* the ring route of uv_fs_open: the only creation step carries the close-on-exec flag *)
+Lemma ring_open_cx m g : all_cx (op_iou_open m g).
+Proof. unfold op_iou_open, op_give1. walkcx. Qed.
